@@ -44,8 +44,14 @@ class _LoadAndSave:
 
     def __enter__(self):
         self._collection._thread_lock.__enter__()
-        if self._load:
-            self._collection._load()
+        try:
+            if self._load:
+                self._collection._load()
+        except BaseException:
+            # __exit__ is not called if __enter__ raises, so the lock must
+            # be released here.
+            self._collection._thread_lock.__exit__(None, None, None)
+            raise
 
     def __exit__(self, exc_type, exc_val, exc_tb):
         try:
